@@ -52,6 +52,7 @@ class LiveFault(explore.Scenario):
     max_points = 80000
     idle_window = 12.0
     shared = SHARED_NODE
+    auto_shared = True
 
     def driver(self, rt):
         P = self.params
